@@ -21,7 +21,7 @@ PROP = "C49"
 READY = True
 DRIVER = "dm_bag"
 LEAN_MODULES = ["DaskModel.Props.C49"]
-CASE_TIMEOUT_S = 30
+CASE_TIMEOUT_S = 120
 TECHNIQUE = "Lean 4 proof (support of the sampler for every random oracle: invariants over the reservoir loop, the heap selection and the reduction tree) + differential correspondence with recorded random draws"
 ASSUMPTIONS = [
     "the module-level `random` functions return values in their documented ranges (randrange(k) < k, choices picks positions of the population)",
@@ -429,11 +429,11 @@ def generate(ctx):
 
 
 LEVEL_TEXT = (
-    "Lean theorems for an arbitrary random oracle: the reservoir of _sample_map_partitions, the heap selection of "
-    "_sample_reduce and the whole reduction tree return a sub-multiset of exactly k elements when k <= |b| "
-    "(sample_submultiset); choices returns k elements of b; random_sample is a subsequence and a function of "
-    "(random_state, partitioning). The statement's clause 'all of b when k exceeds its size' is refuted for the "
-    "code (ValueError, demanded by a pinned test) and recorded as a known finding. See notes/bag.md.")
+    "Lean theorems for an ARBITRARY random oracle, every partitioning (empty partitions included) and split_every >= 2: "
+    "sample_submultiset (k <= |b|: a sub-multiset of exactly k elements; reservoir, heap selection and the whole reduction tree via "
+    "an invariant principle for Bag.reduction), choices_elements_of_b and choices_total (non-empty bag: k elements of b, no error), "
+    "random_sample subsequence + function of (keep bits, partitioning). The clause 'all of b when k exceeds its size' is refuted for "
+    "the code (ValueError for every oracle; demanded by a pinned test) and recorded as a known finding. Uniformity is not claimed.")
 LEVEL_NOTE = (
     "Trusted: Lean kernel + standard axioms; the correspondence harness (recorded random draws handed to the model as its "
     "oracle; API-level clauses on sync/threads/processes schedulers); CPython random/heapq. Uniformity of the sample is not claimed.")
